@@ -622,6 +622,17 @@ func runElements(c *mc.Ctx, r *mc.Result) {
 			visit(v)
 		}
 	}
+	// the longest textual forms of an address: fully written IPv6 (39 characters), IPv6 with a dotted-quad tail (up
+	// to 45), with zone, brackets and port around them
+	for _, core := range []string{"2606:4700:0000:0000:0000:0000:0000:0001", "0000:0000:0000:0000:0000:ffff:188.114.96.10", "0064:ff9b:0000:0000:0000:0000:188.114.196.110",
+		"0000:0000:0000:0000:0000:0000:0010.0000.0000.0001", "fe80:0000:0000:0000:0000:0000:0000:0001%eth0", "2606:4700:0000:0000:0000:0000:0000:00001"} {
+		for _, form := range []string{"%s", "[%s]", "[%s]:443"} {
+			idx++
+			if c.Mine(idx) {
+				visit(fmt.Sprintf(form, core))
+			}
+		}
+	}
 	// bracket / port / quote compositions around real addresses (too long for the brute-force part)
 	for _, pre := range []string{"", "[", "[[", "\"", "\"[", "[\""} {
 		for _, core := range []string{"7.7.7.7", "2606:4700::1", "10.0.0.1", "fe80::1"} {
